@@ -549,7 +549,7 @@ static void run_cmd(int ntok, char **tok) {
                                     shim_wbytes(fds[i]), shim_calls('w', fds[i]), shim_calls('r', fds[i]), shim_calls('s', fds[i]));
             ev_raw(tmp); first = 0;
         }
-        ev_raw("]"); ev_int("temp_wbytes", shim_wbytes(-2)); ev_int("temp_wcalls", shim_calls('w', -2)); ev_int("temp_rcalls", shim_calls('r', -2));
+        ev_raw("]"); ev_int("temp_wbytes", shim_wbytes(-2)); ev_int("temp_wcalls", shim_calls('w', -2)); ev_int("temp_rcalls", shim_calls('r', -2)); ev_int("temp_scalls", shim_calls('s', -2));
         ev_int("static_bufs", shim_static_bufs);
         ev_end();
     }
